@@ -281,7 +281,21 @@ fn run_views(pc: usize, pr: usize, ctx: &mut Ctx) {
                 let mut p: TooDee<u32> = TooDee::from_vec(pc, pr, (0..(pc * pr) as u32).map(|i| i * 3 + 1).collect());
                 cs.nontrivial((pc, pr, s, e));
                 cs.outcome("view");
-                let expect: TooDee<u32> = TooDee::from(p.view(s, e));
+                // the expected array is read off the root by coordinates (TooDee::from(view) is C20's subject)
+                let expect: TooDee<u32> = {
+                    let (w, h) = (e.0 - s.0, e.1 - s.1);
+                    if w == 0 || h == 0 {
+                        TooDee::default()
+                    } else {
+                        let mut cells = Vec::with_capacity(w * h);
+                        for y in 0..h {
+                            for x in 0..w {
+                                cells.push(p[(s.0 + x, s.1 + y)]);
+                            }
+                        }
+                        TooDee::from_vec(w, h, cells)
+                    }
+                };
                 {
                     let v = p.view(s, e);
                     round_trips::<_, u32>(&v, &expect, cs, "TooDeeView");
@@ -294,7 +308,7 @@ fn run_views(pc: usize, pr: usize, ctx: &mut Ctx) {
                 if s == (0, 0) && e == (pc, pr) {
                     let mut long: Vec<u32> = p.data().to_vec();
                     long.extend([91, 92, 93]);
-                    let full: TooDee<u32> = TooDee::from(p.view((0, 0), (pc, pr)));
+                    let full: TooDee<u32> = p.clone();
                     {
                         let dv = toodee::TooDeeView::new(pc, pr, &long);
                         round_trips::<_, u32>(&dv, &full, cs, "TooDeeView::new over a longer slice");
@@ -304,13 +318,40 @@ fn run_views(pc: usize, pr: usize, ctx: &mut Ctx) {
                         round_trips::<_, u32>(&dm, &full, cs, "TooDeeViewMut::new over a longer slice");
                     }
                 }
-                // a window of a window
+                // windows of a window, through every pairing of view / view_mut; the expected array is read off the
+                // ROOT by coordinates (not through the views under test)
                 let (wc, wr) = expect.size();
                 if wc >= 2 && wr >= 2 {
-                    let outer = p.view(s, e);
-                    let inner = outer.view((1, 0), (wc, wr - 1));
-                    let exp2: TooDee<u32> = TooDee::from(inner);
-                    round_trips::<_, u32>(&inner, &exp2, cs, "nested TooDeeView");
+                    let root_cells: Vec<u32> = p.data().to_vec();
+                    let sub = |s2: (usize, usize), e2: (usize, usize)| -> TooDee<u32> {
+                        let (w, h) = (e2.0 - s2.0, e2.1 - s2.1);
+                        let mut cells = Vec::with_capacity(w * h);
+                        for y in 0..h {
+                            for x in 0..w {
+                                cells.push(root_cells[(s.1 + s2.1 + y) * pc + s.0 + s2.0 + x]);
+                            }
+                        }
+                        TooDee::from_vec(w, h, cells)
+                    };
+                    // a narrower child not starting on row 0 / a child spanning the parent's full width
+                    for (s2, e2) in [((1, 0), (wc, wr - 1)), ((0, 1), (wc - 1, wr)), ((1, 1), (wc, wr)), ((0, 1), (wc, wr))] {
+                        let exp2 = sub(s2, e2);
+                        {
+                            let outer = p.view(s, e);
+                            let inner = outer.view(s2, e2);
+                            round_trips::<_, u32>(&inner, &exp2, cs, "view of a view");
+                        }
+                        {
+                            let outer = p.view_mut(s, e);
+                            let inner = outer.view(s2, e2);
+                            round_trips::<_, u32>(&inner, &exp2, cs, "view of a view_mut");
+                        }
+                        {
+                            let mut outer = p.view_mut(s, e);
+                            let inner = outer.view_mut(s2, e2);
+                            round_trips::<_, u32>(&inner, &exp2, cs, "view_mut of a view_mut");
+                        }
+                    }
                 }
             },
         );
